@@ -57,6 +57,9 @@ void on_terminate() {
     }
     fatal("terminate", buf);
 }
+void on_alarm(int) {
+    fatal("hang", "run still executing after its wall-clock allowance although no library call exceeded its step budget (harness memory corrupted?)");
+}
 void on_signal(int sig) {
     char buf[64]; std::snprintf(buf, sizeof buf, "signal %d (%s)", sig, strsignal(sig));
     fatal("signal", buf);
@@ -85,8 +88,14 @@ extern "C" void __asan_set_error_report_callback(void (*)(const char *));
 extern "C" void __sanitizer_set_death_callback(void (*)(void));
 #endif
 
+// Wall-clock allowance for one run.  It never influences a run that terminates (a run takes milliseconds, the allowance is a minute); it only
+// turns a worker that spins *outside* library code - where the step clock does not tick, e.g. after a library defect overwrote harness memory -
+// into a classified fatal event instead of a supervisor that waits for ever.
+void run_deadline(unsigned seconds) { ::alarm(seconds); }
+
 void fatal_install() {
     std::set_terminate(on_terminate);
+    { struct sigaction sa; std::memset(&sa, 0, sizeof sa); sa.sa_handler = on_alarm; sigaction(SIGALRM, &sa, nullptr); }
 #ifdef SIMRT_ASAN
     __asan_set_error_report_callback(asan_report);
     __sanitizer_set_death_callback(on_death);
